@@ -1644,6 +1644,22 @@ func (s *BgpServer) stopNeighbor(peer *peer, oldState bgp.FSMState, e *fsmMsg) {
 	s.broadcastPeerState(peer, bgp.BGP_FSM_IDLE, oldState, e)
 }
 
+// clearedNeighborState is the operational state a neighbour is left with when
+// its counters are cleared on administrative shutdown: empty, except for what
+// the configuration determines (as SetDefaultNeighborConfigValues derives it).
+func clearedNeighborState(conf *oc.Neighbor) oc.NeighborState {
+	st := oc.NeighborState{
+		NeighborAddress: conf.Config.NeighborAddress,
+		PeerAs:          conf.Config.PeerAs,
+		LocalAs:         conf.Config.LocalAs,
+		PeerType:        conf.Config.PeerType,
+	}
+	if conf.Config.PeerType == oc.PEER_TYPE_EXTERNAL {
+		st.RemovePrivateAs = conf.Config.RemovePrivateAs
+	}
+	return st
+}
+
 func (s *BgpServer) handleFSMMessage(peer *peer, e *fsmMsg) {
 	needStopNeighbor := false
 	var oldState bgp.FSMState
@@ -1942,9 +1958,7 @@ func (s *BgpServer) handleFSMMessage(peer *peer, e *fsmMsg) {
 		if peer.AdminState() == adminStateDown {
 			peer.fsm.lock.Lock()
 			conf := peer.fsm.pConf.ReadCopy()
-			conf.State = oc.NeighborState{}
-			conf.State.NeighborAddress = conf.Config.NeighborAddress
-			conf.State.PeerAs = conf.Config.PeerAs
+			conf.State = clearedNeighborState(&conf)
 			conf.Timers.State = oc.TimersState{}
 			peer.fsm.pConf.Update(&conf)
 			peer.fsm.bgpMessageResetStats()
